@@ -77,6 +77,19 @@ def key_order(has: tm.T, ksort: str, sorted_: bool, nonce=None):
     return arr, cnt
 
 
+def index_of(container, key):
+    """Ghost: the position of `key` in the ascending enumeration of the container's keys, with the instance
+    "a member sits at its position" for this key."""
+    c = cur()
+    ks = container.ksort
+    kt = container.kterm(key)
+    arr, cnt = key_order(container.has, ks, True)
+    idx = c.decls.fun("index_" + ks, [container.has.sort, ks], INT)(container.has, kt)
+    c.pc.append(tm.Implies(tm.Select(container.has, kt, BOOL),
+                           tm.And(tm.Le(tm.mk_int(0), idx), tm.Lt(idx, cnt), tm.Eq(tm.Select(arr, idx, ks), kt))))
+    return idx
+
+
 def keys_seq(container, sorted_: bool, wrap_elem=None):
     """SymSeq over the keys of a SymMap / SymSet."""
     c = cur()
@@ -91,6 +104,10 @@ def keys_seq(container, sorted_: bool, wrap_elem=None):
         # instance of: every enumerated element is a member
         c2 = cur()
         c2.pc.append(tm.Implies(inr, tm.Select(has, kt, BOOL)))
+        if sorted_:
+            # the element at position i has index i (the enumeration is injective)
+            idxf = c2.decls.fun("index_" + ks, [has.sort, ks], INT)
+            c2.pc.append(tm.Implies(inr, tm.Eq(idxf(has, kt), i)))
         if sorted_ and ks == STR:
             # instances of strict ascent around i (neighbours)
             prev = tm.Select(arr, tm.Sub(i, tm.mk_int(1)), ks)
@@ -149,7 +166,7 @@ class Poison:
 
 class LoopSpec:
     def __init__(self, invariant=None, locals=None, facts=None, modifies=None, decreases=None,
-                 keep=(), exit_facts=None, havoc=()):
+                 keep=(), exit_facts=None, havoc=(), forall=None, step_post=None):
         self.invariant = invariant
         self.locals = locals or {}
         self.facts = facts
@@ -157,6 +174,12 @@ class LoopSpec:
         self.decreases = decreases
         self.keep = tuple(keep)
         self.havoc = tuple(havoc)  # extra local names whose objects the body mutates through calls
+        # universally quantified invariant: name -> Spec of scalar sort; the invariant reads them as e.q.<name>;
+        # it is assumed for all values and proved for fresh (arbitrary) ones
+        self.forall = forall or {}
+        # per-iteration postcondition: lambda e -> bool, with e.iter_pre = heap snapshots taken at the start of
+        # the (arbitrary) iteration; proved at the end of the body in addition to the invariant
+        self.step_post = step_post
 
 
 class _LoopBase:
@@ -183,14 +206,39 @@ class _LoopBase:
         d["pre"] = self.pre  # snapshots of the heap objects bound to locals when the loop was entered
         return Namespace(d)
 
-    def _inv(self, env, i):
+    def _inv(self, env, i, mode="prove"):
         if self.spec is None or self.spec.invariant is None:
             return True
         ns = self._env(env, i)
         if self.spec.facts is not None:
             for f in self.spec.facts(ns):
                 cur().assume(f)
-        return self.spec.invariant(ns)
+        if not self.spec.forall:
+            return self.spec.invariant(ns)
+        c = cur()
+        if mode == "prove":
+            ns.__dict__["q"] = Namespace({n: sp.fresh(c.fresh_name(f"L{self.k}.any.{n}")) for n, sp in self.spec.forall.items()})
+            return self.spec.invariant(ns)
+        # assume: for all values of the quantified variables
+        bound = []
+        qvals = {}
+        for n, sp in self.spec.forall.items():
+            vname = c.fresh_name(f"L{self.k}!q!{n}")
+            bound.append((vname, sp.scalar_sort))
+            qvals[n] = sp.wrap(tm.Var(vname, sp.scalar_sort))
+        ns.__dict__["q"] = Namespace(qvals)
+        n0 = len(c.pc)
+        ob0, tr0 = len(c.obligations), len(c.trace)
+        c.nofork += 1
+        try:
+            body = B(self.spec.invariant(ns))
+        finally:
+            c.nofork -= 1
+            del c.obligations[ob0:]
+            del c.trace[tr0:]
+        side = c.pc[n0:]
+        del c.pc[n0:]
+        return wrap_bool(tm.ForAll(bound, tm.And(*side, body)))
 
     def havoc(self, name, value):
         c = cur()
@@ -208,6 +256,18 @@ class _LoopBase:
         if isinstance(value, (SymMap, SymSet)) and sp is None:
             havoc_container(value, f"L{self.k}.{name}")
             return value
+        if isinstance(value, dict) and not value and sp is not None and isinstance(sp, ty.MapOf):
+            m = sp.fresh(c.fresh_name(f"L{self.k}.{name}"))
+            m.value_invariant = None
+            sym.mark_born(m)
+            c.data.setdefault("havocked", set()).add(id(m))
+            return m
+        if isinstance(value, (set, frozenset)) and not value and sp is not None and isinstance(sp, ty.SetOf):
+            st = sp.fresh(c.fresh_name(f"L{self.k}.{name}"))
+            st.elem_invariant = None
+            sym.mark_born(st)
+            c.data.setdefault("havocked", set()).add(id(st))
+            return st
         if isinstance(value, list) and not value and sp is not None and isinstance(sp, ty.SeqOf):
             # an empty list literal that the loop fills: from here on an array-backed sequence
             q = sp.fresh(c.fresh_name(f"L{self.k}.{name}"))
@@ -330,16 +390,22 @@ class ForLoop(_LoopBase):
         return
 
     def assume_inv(self, env):
-        cur().assume(self._inv(env, wrap_int(self.i)))
+        cur().assume(self._inv(env, wrap_int(self.i), "assume"))
+        self.iter_pre = _snap_env(env)
 
     def end_body(self, env):
         c = cur()
         self.check_frame()
+        if self.spec is not None and self.spec.step_post is not None:
+            ns = self._env(env, wrap_int(self.i))
+            ns.__dict__["iter_pre"] = self.iter_pre
+            ns.__dict__["current"] = self.current
+            c.prove(f"loop{self.k}.iteration_post", self.spec.step_post(ns), kind="loop")
         c.prove(f"loop{self.k}.step", self._inv(env, wrap_int(tm.Add(self.i, tm.mk_int(1)))), kind="loop")
         raise PathEnd()
 
     def assume_exit(self, env):
-        cur().assume(self._inv(env, wrap_int(self.n)))
+        cur().assume(self._inv(env, wrap_int(self.n), "assume"))
 
 
 class WhileLoop(_LoopBase):
@@ -375,7 +441,7 @@ class WhileLoop(_LoopBase):
 
     def assume_inv(self, env):
         c = cur()
-        c.assume(self._inv(env, wrap_int(self.i)))
+        c.assume(self._inv(env, wrap_int(self.i), "assume"))
         if self.spec is not None and self.spec.decreases is not None:
             self.dec0 = I(self.spec.decreases(self._env(env, wrap_int(self.i))))
 
@@ -892,6 +958,38 @@ def _dict_comp(f, q, cond):
     return m
 
 
+def _seq_concat(a, b):
+    """list + list for symbolic sequences (elements merged by position)."""
+    if isinstance(b, (list, tuple)):
+        if not b:
+            return a
+        raise Unsupported("concatenation of a symbolic and a concrete list")
+    if not isinstance(b, SymSeq):
+        return NotImplemented
+    la = a.length
+
+    def elem(i):
+        c = tm.Lt(i, la)
+        x = a.elem(i)
+        y = b.elem(tm.Sub(i, la))
+        m = merge_values(c, x, y)
+        if m is NotImplemented:
+            raise Unsupported("concatenation of sequences whose elements cannot be merged")
+        return m
+
+    return SymSeq(elem, tm.Add(la, b.length), name=f"({a.name}+{b.name})")
+
+
+def _seq_rconcat(a, b):
+    if isinstance(b, (list, tuple)) and not b:
+        return a
+    return NotImplemented
+
+
+SymSeq.__add__ = _seq_concat
+SymSeq.__radd__ = _seq_rconcat
+
+
 # --------------------------------------------------------------------------- builtins
 
 
@@ -1102,10 +1200,7 @@ def v_set(*a):
         s.spec = ty.SetOf(m.spec.key)
         return s
     if a and isinstance(a[0], SymSeq):
-        hook = cur().data.get("set_of_seq_hook")
-        if hook is not None:
-            return hook(a[0])
-        raise Unsupported("set() of a symbolic sequence")
+        return _set_comp(lambda x: x, a[0], None)
     return builtins.set(*a)
 
 
